@@ -94,6 +94,8 @@ func main() {
 			cases = append(cases, names.PendingC11()...)
 			cases = append(cases, names.AutonameAcrossPasses()...)
 			cases = append(cases, names.ChanC11(r)...)
+			cases = append(cases, names.StaleC11()...)
+			cases = append(cases, names.TwoPackagesC11()...)
 		case "C12":
 			n, m := 30, 300
 			if *thorough {
